@@ -198,6 +198,23 @@ def _call(it, e, env):
     if isinstance(fexpr, ast.Name) and fexpr.id not in env:
         obj = P.resolve_pkg_name(d)
         if isinstance(obj, ClassInfo):
+            # COUNT.args: a size handed to a constructor counts the axis the constructor declares for that parameter
+            init_ = P.lookup_method(obj, "__init__")
+            if init_ is not None:
+                b_ = P.bind_args(init_, [ast.Name(id="__self__", ctx=ast.Load())] + list(args), kws) if False else None
+                pos_ = list(init_.posparams[1:])
+                given = dict(zip(pos_, argv))
+                given.update(kw)
+                for pn_, av_ in given.items():
+                    dk_ = it.c.decls.get("params", {}).get(f"{init_.key}.{pn_}")
+                    if not dk_ or not dk_.startswith("count:"):
+                        continue
+                    want_ = dk_.split(":", 1)[1]
+                    got_ = av_.count_of if av_.is_numlike else None
+                    if got_ and got_ not in ("?", want_):
+                        it.violation("DIM.COUNT", e, f"`{src(e)[:60]}`: the parameter {pn_} of {obj.name} is the size of axis {want_} but receives the size of axis {got_}: the recorded shape is transposed (wrong whenever the two sizes differ)")
+                    elif got_ == want_:
+                        it.ok("DIM.COUNT", e, f"{obj.name}({pn_}=size of {want_})")
             o = V("obj", obj=obj.name)
             o.part = any_part(argv + list(kw.values()))
             return o
@@ -507,7 +524,10 @@ def numpy_call(it, fn, d, e, env, argv, kw, args):
             if el is None:
                 return wild(None)
             if el.is_numlike:
-                return el.copy(sh=((a0.axis if a0.axis not in (None, "empty") else "?"),) + tuple(el.sh) if el.sh is not None else None, cval=None, count_of=None, index_of=None)
+                ax_ = (a0.axis if a0.axis not in (None, "empty") else "?")
+                if el.sh is None and el.wild:
+                    return el.copy(sh=(ax_,), cval=None, count_of=None, index_of=None)  # an array of labels / scalars: one axis, that of the list
+                return el.copy(sh=(ax_,) + tuple(el.sh) if el.sh is not None else None, cval=None, count_of=None, index_of=None)
             return unk("array of " + fmt(el))
         return a0
     if fn in ("vstack", "stack", "concatenate", "hstack"):
@@ -819,9 +839,19 @@ def numpy_call(it, fn, d, e, env, argv, kw, args):
             r_.sw = 0 if a0.sw is not None else None  # np.cov centres the data: invariant under a common shift
             return r_
         return unk("cov")
+    if fn == "tile" and a0 is not None and a0.is_numlike:
+        cnt = argv[1] if len(argv) > 1 else kw.get("reps")
+        if a0.sh == ("C",) and cnt is not None and cnt.is_numlike and cnt.count_of == "D":
+            it.violation("DIM.LAYOUT", e, f"`{src(e)[:50]}` expands a per-component vector to supervector length by tiling: element c*D + d of a supervector belongs to component c (the layout of `flatten()` on a (components, features) array), tiling puts component (c*D + d) mod C there; use np.repeat")
+            return a0.copy(sh=("F",), cval=None, count_of=None)
+        if a0.sh == ("D",) and cnt is not None and cnt.is_numlike and cnt.count_of == "C":
+            return a0.copy(sh=("F",), cval=None, count_of=None)
+        return a0.copy(sh=None, cval=None, count_of=None)
     if fn == "repeat":
         if a0 is not None and a0.is_numlike:
             cnt = argv[1] if len(argv) > 1 else kw.get("repeats")
+            if a0.sh == ("D",) and cnt is not None and cnt.is_numlike and cnt.count_of == "C" and "axis" not in kw:
+                it.violation("DIM.LAYOUT", e, f"`{src(e)[:50]}` expands a per-feature vector to supervector length by repeating each element: element c*D + d of a supervector is feature d, repeating puts feature (c*D + d) div C there; use np.tile")
             if a0.sh == ("C",) and cnt is not None and cnt.is_numlike and cnt.count_of == "D":
                 return a0.copy(sh=("F",), cval=None, count_of=None)
             return a0.copy(sh=None if a0.sh not in ((), ("1",)) else a0.sh, cval=None, count_of=None)
